@@ -93,7 +93,7 @@ def check_c11(tier, replay):
     th = tier == "thorough"
     try:
         if replay:
-            raise MachineryError("C11 violations carry the run parameters; re-run the check with the same VERIF_SEED")
+            vlib.replay_as_rerun(v, replay)   # everything is derived from the seed and tier recorded in the replay file
         # 1. the design: routing table + backlog, every interleaving of packet classes / Accept / Close (2 addresses x 2 conversations)
         r = vlib.run_tlc(scr, "ListenerMC", "Listener_mc.cfg", timeout=1800)
         if not r.ok:
